@@ -14,7 +14,7 @@ import RTV.Gen.DtMapsX2
   wordhour ref source                                        -> res or none
   m2d culture ref year fullYear month day writtenYear        -> res or err:<Kind>
   res dtype ok timex comment future past                     -> values or none or err:<Kind>
-  merge dOk dTimex dFuture dPast tOk tTimex tComment tFuture pm am   -> res or err:<Kind>
+  merge variant(1 = word shift only for an ambiguous time) dOk dTimex dFuture dPast tOk tTimex tComment tFuture pm am   -> res or err:<Kind>
   rdate culture ref year fullYear month day writtenYear      -> values (resolveDate)
   rtime ref <m2t fields>                                     -> values (resolveTime)
   rdt culture ref year fullYear month day writtenYear pm am <m2t fields>   -> values (resolveDateAtTime)
@@ -167,11 +167,11 @@ def hRes : Handler
   | _ => "bad-op"
 
 def hMerge : Handler
-  | [dOk, dTimex, dFut, dPast, tOk, tTimex, tComment, tFut, pm, am] =>
+  | [variant, dOk, dTimex, dFut, dPast, tOk, tTimex, tComment, tFut, pm, am] =>
     let dr : Res := { success := parseBool dOk, timex := parseCps dTimex, future := parseDT dFut, past := parseDT dPast }
     let tr : Res := { success := parseBool tOk, timex := parseCps tTimex, comment := parseCps tComment,
                       future := parseDT tFut, past := parseDT tFut }
-    showExcept showRes (mergeDateAndTime (toSlot .date dr) (toSlot .time tr) (parseBool pm) (parseBool am))
+    showExcept showRes (mergeDateAndTime (toSlot .date dr) (toSlot .time tr) (parseBool pm) (parseBool am) (parseBool variant))
   | _ => "bad-op"
 
 def hRDate : Handler
